@@ -97,7 +97,7 @@ Print Assumptions C18_style_space_is_243.
    for any nesting; at DEBUG there is no request and no reset. *)
 Theorem C18_highlight_reset :
   forall colour cs lv msg,
-    render colour (enc_chunk (CHighlight cs) lv msg) =
+    render colour (enc_chunk (CHighlight no_params cs) lv msg) =
     match highlight_style lv with
     | Some st =>
       (if colour then sgr_bytes st else [])
@@ -107,6 +107,29 @@ Theorem C18_highlight_reset :
     end.
 Proof. exact highlight_reset. Qed.
 Print Assumptions C18_highlight_reset.
+
+(* A highlighted group with ANY format spec (min/max width, either alignment, any fill) issues
+   exactly the same style requests in the same order -- style, inner requests, reset -- however
+   long its text is: the width writers never drop or reorder a set_style call. *)
+Theorem C18_highlight_styles_with_spec :
+  forall p cs lv msg,
+    styles_of (enc_chunk (CHighlight p cs) lv msg) =
+    match highlight_style lv with
+    | Some st => st :: styles_of (enc_chunks cs lv msg) ++ [style_new]
+    | None => styles_of (enc_chunks cs lv msg)
+    end.
+Proof. exact highlight_styles_with_spec. Qed.
+Print Assumptions C18_highlight_styles_with_spec.
+
+(* With a max-width spec the coloured stream still opens with the style request and closes
+   with the reset. *)
+Theorem C18_highlight_max_width_reset :
+  forall p mx cs lv msg st,
+    p_min p = None -> p_max p = Some mx -> highlight_style lv = Some st ->
+    exists body,
+      render true (enc_chunk (CHighlight p cs) lv msg) = sgr_bytes st ++ body ++ sgr_bytes style_new.
+Proof. exact highlight_max_width_reset. Qed.
+Print Assumptions C18_highlight_max_width_reset.
 
 Theorem C18_reset_resets : forall s0, sgr_apply s0 (sgr_bytes style_new) = Some style_new.
 Proof. exact reset_resets. Qed.
@@ -133,7 +156,7 @@ Proof. vm_compute. repeat split. Qed.
 Example C18_example_append :
   append {| w_env := env_of None None None; w_out_tty := false; w_err_tty := true |}
          {| a_target := Stderr; a_tty_only := true;
-            a_pattern := [CHighlight [CLevel]; CText [32]; CMessage; CNewline] |}
+            a_pattern := [CHighlight no_params [CLevel]; CText [32]; CMessage; CNewline] |}
          Error [104; 105]
   = Ok ([], [27; 91; 48; 59; 51; 49; 59; 49; 109; 69; 82; 82; 79; 82; 27; 91; 48; 109; 32; 104; 105; 10]).
 Proof. vm_compute. reflexivity. Qed.
@@ -150,7 +173,18 @@ Proof. vm_compute. repeat split. Qed.
 Example C18_example_untied :
   let w := {| w_env := env_of (Some [49]) None None; w_out_tty := false; w_err_tty := true |} in
   let a := {| a_target := Stdout; a_tty_only := false;
-              a_pattern := [CHighlight [CLevel]; CText [32]; CMessage; CNewline] |} in
+              a_pattern := [CHighlight no_params [CLevel]; CText [32]; CMessage; CNewline] |} in
   a_tty_only a = false /\ known_class w a = false
   /\ append w a Warn [104; 105] = Ok ([87; 65; 82; 78; 32; 104; 105; 10], []).
 Proof. vm_compute. repeat split. Qed.
+
+(* {h({m}):.3} at ERROR, message abcde, colour on: truncated to 3 characters, reset kept;
+   {h({m}):_>6.8}: right-aligned, fill first, then style, text, reset *)
+Example C18_example_width :
+  render true (enc_chunk (CHighlight {| p_min := None; p_max := Some 3; p_right := false; p_fill := [32] |}
+                                     [CMessage]) Error [97; 98; 99; 100; 101])
+  = [27; 91; 48; 59; 51; 49; 59; 49; 109; 97; 98; 99; 27; 91; 48; 109]
+  /\ render true (enc_chunk (CHighlight {| p_min := Some 6; p_max := Some 8; p_right := true; p_fill := [95] |}
+                                        [CMessage]) Warn [97; 98])
+  = [95; 95; 95; 95; 27; 91; 48; 59; 51; 51; 109; 97; 98; 27; 91; 48; 109].
+Proof. vm_compute. split; reflexivity. Qed.
